@@ -2,7 +2,9 @@ package main
 
 import (
 	"fmt"
+	"hash/fnv"
 	"math/rand"
+	"regexp"
 	"strings"
 
 	"github.com/influxdata/influxql"
@@ -229,10 +231,35 @@ func parenthesisations(atoms, ops []string) []string {
 
 func parseExprWith(text string, params map[string]interface{}) (influxql.Expr, error) {
 	p := influxql.NewParser(strings.NewReader(text))
+	applyParams(p, text, params)
+	return p.ParseExpr()
+}
+
+var placeholderNameRe = regexp.MustCompile(`\$"?([A-Za-z0-9_]+)`)
+
+// applyParams binds the parameters the way a caller does. On every second text (by a hash of the text,
+// so the choice is reproducible) the parser has been given other bindings before: every name of the map
+// and every placeholder of the text bound to a marker string, plus an extra name. SetParams replaces the
+// bindings, so the result must be the same as on a fresh parser; a SetParams that keeps or merges earlier
+// bindings (round-3 seeded change C07-1) makes withdrawn values reappear.
+func applyParams(p *influxql.Parser, text string, params map[string]interface{}) {
+	h := fnv.New32a()
+	h.Write([]byte(text))
+	if h.Sum32()%2 == 0 {
+		decoy := map[string]interface{}{"stale_extra": int64(7), "": "stale-decoy"}
+		for k := range params {
+			decoy[k] = "stale-decoy"
+		}
+		for _, m := range placeholderNameRe.FindAllStringSubmatch(text, -1) {
+			decoy[m[1]] = "stale-decoy"
+		}
+		p.SetParams(decoy)
+		p.SetParams(params)
+		return
+	}
 	if len(params) > 0 {
 		p.SetParams(params)
 	}
-	return p.ParseExpr()
 }
 
 func isOracleError(err error) bool {
